@@ -168,9 +168,9 @@ impl<T: El> World<T> {
                 let c = std::mem::replace(&mut self.cell, Cell::None);
                 self.cell = ledger::track(|| match c {
                     Cell::Opt(o) => Cell::COpt(o.into()),
-                    Cell::COpt(o) => Cell::Opt(o.into()),
+                    Cell::COpt(o) => Cell::Opt(if self.flip % 2 == 0 || !o.is_some() { o.into() } else { Some(o.unwrap()) }),
                     Cell::Res(r) => Cell::CRes(r.into()),
-                    Cell::CRes(r) => Cell::Res(r.into()),
+                    Cell::CRes(r) => Cell::Res(if self.flip % 2 == 0 || !r.is_ok() { r.into() } else { Ok(r.unwrap()) }),
                     Cell::T1(t) => Cell::C1(t.into()),
                     Cell::C1(t) => Cell::T1(t.into_tuple()),
                     Cell::T2(t) => Cell::C2(t.into()),
@@ -181,6 +181,42 @@ impl<T: El> World<T> {
                     Cell::C4(t) => Cell::T4(t.into()),
                     Cell::None => unreachable!(),
                 });
+                self.last = ok;
+            }
+            "ResOk" => {
+                let c = std::mem::replace(&mut self.cell, Cell::None);
+                let mut consistent = true;
+                self.cell = ledger::track(|| match c {
+                    Cell::CRes(r) => {
+                        // is_ok / is_err must agree with the variant the conversion produces
+                        let (isok, iserr) = (r.is_ok(), r.is_err());
+                        let o = r.ok();
+                        consistent = isok != iserr && isok == o.is_some();
+                        Cell::Opt(o)
+                    }
+                    _ => unreachable!(),
+                });
+                self.last = if consistent { ok } else { json!({"kind":"is_ok/is_err/ok disagree","n":0}) };
+            }
+            "ReplaceMut" => {
+                let id = payload::next_id();
+                ledger::track(|| {
+                    let newv = Heavy::new(id, id as i64);
+                    match &mut self.cell {
+                        Cell::COpt(o) => *o.as_mut().unwrap() = newv,
+                        Cell::CRes(r) => match r.as_mut() {
+                            Ok(v) => *v = newv,
+                            Err(e) => *e = newv,
+                        },
+                        _ => unreachable!(),
+                    }
+                });
+                self.last = ok;
+            }
+            "DefaultOpt" => {
+                let old = std::mem::replace(&mut self.cell, Cell::None);
+                ledger::track(|| drop(old));
+                self.cell = Cell::COpt(cglue::option::COption::default());
                 self.last = ok;
             }
             "TakeOpt" => {
